@@ -298,3 +298,89 @@ Proof.
     + apply andb_true_iff in Hn. destruct Hn as [Hn _]. apply andb_true_iff in Hn. destruct Hn as [Ht Hc].
       rewrite parse_misc_pi by assumption. rewrite IH'. cbn [filter keep]. destruct rp; reflexivity.
 Qed.
+
+(* ------------------------------------------------------------------------------------------ *)
+(* the XML declaration *)
+
+Lemma label_char_upper c : is_label_char c = true -> is_label_char (ascii_upper c) = true.
+Proof.
+  unfold ascii_upper. destruct ((97 <=? c) && (c <=? 122))%bool eqn:E; [|auto]. intros _.
+  apply andb_true_iff in E. destruct E as [E1 E2]. apply N.leb_le in E1, E2.
+  unfold is_label_char.
+  assert (H1 : (65 <=? c - 32) = true) by (apply N.leb_le; lia).
+  assert (H2 : (c - 32 <=? 90) = true) by (apply N.leb_le; lia).
+  rewrite H1, H2. cbn. rewrite orb_true_r. reflexivity.
+Qed.
+
+Lemma label_char_plain c : is_label_char c = true ->
+  (c =? 34) = false /\ (c =? CR) = false /\ (c =? LF) = false /\ is_xml_ws c = false.
+Proof.
+  intros H.
+  assert (Hc : 45 <= c).
+  { unfold is_label_char in H. repeat (apply orb_true_iff in H; destruct H as [H|H]);
+      try (apply andb_true_iff in H; destruct H as [H _]; apply N.leb_le in H; lia);
+      apply N.eqb_eq in H; lia. }
+  unfold is_xml_ws, CR, LF. repeat split; repeat (apply orb_false_iff; split); apply N.eqb_neq; lia.
+Qed.
+
+Lemma upper_label enc : forallb is_label_char enc = true -> forallb is_label_char (upper enc) = true.
+Proof.
+  induction enc as [|c e IH]; cbn; [auto|]. intros H. apply andb_true_iff in H. destruct H as [H1 H2].
+  rewrite label_char_upper, IH; auto.
+Qed.
+
+Lemma label_no_quote e : forallb is_label_char e = true -> forallb (fun c => negb (c =? 34)) e = true.
+Proof.
+  induction e as [|c e IH]; cbn; [auto|]. intros H. apply andb_true_iff in H. destruct H as [H1 H2].
+  destruct (label_char_plain c H1) as (Hq & _). rewrite Hq, IH; auto.
+Qed.
+
+Lemma label_no_cr e : forallb is_label_char e = true -> no_cr e = true.
+Proof.
+  unfold no_cr. induction e as [|c e IH]; cbn; [auto|]. intros H. apply andb_true_iff in H. destruct H as [H1 H2].
+  destruct (label_char_plain c H1) as (_ & Hq & _). rewrite Hq, IH; auto.
+Qed.
+
+Lemma label_no_lf e : forallb is_label_char e = true -> forallb (fun c => negb (c =? LF)) e = true.
+Proof.
+  induction e as [|c e IH]; cbn; [auto|]. intros H. apply andb_true_iff in H. destruct H as [H1 H2].
+  destruct (label_char_plain c H1) as (_ & _ & Hq & _). rewrite Hq, IH; auto.
+Qed.
+
+(* the declaration as written is read back, and names `upper enc` *)
+Lemma parse_decl_written e rest :
+  forallb is_label_char e = true ->
+  parse_decl (L_DECL_HEAD ++ e ++ L_DECL_TAIL ++ rest) = Ok (Some e, rest).
+Proof.
+  intros He. apply label_no_quote in He.
+  pose proof (read_until_char 34 e (L_PI_CLOSE ++ rest) He) as Hq.
+  change (L_DECL_TAIL ++ rest) with (34 :: L_PI_CLOSE ++ rest).
+  remember (e ++ 34 :: L_PI_CLOSE ++ rest) as X eqn:EX.
+  unfold parse_decl, L_DECL_HEAD. cbn -[read_until skip_ws]. 
+  cbn [read_until py_prefix skipn length N.eqb Pos.eqb andb]. rewrite Hq.
+  reflexivity.
+Qed.
+
+Lemma parse_decl_of enc rest :
+  label_ok enc = true -> parse_decl (decl_of enc ++ rest) = Ok (Some (upper enc), rest).
+Proof.
+  unfold label_ok, decl_of. intros H. apply andb_true_iff in H. destruct H as [_ H].
+  rewrite <- !app_assoc. apply parse_decl_written. apply upper_label. assumption.
+Qed.
+
+Lemma lower_upper_char c : ascii_lower (ascii_upper c) = ascii_lower c.
+Proof.
+  unfold ascii_upper. destruct ((97 <=? c) && (c <=? 122))%bool eqn:E; [|reflexivity].
+  apply andb_true_iff in E. destruct E as [E1 E2]. apply N.leb_le in E1, E2. unfold ascii_lower.
+  assert (H1 : (65 <=? c - 32) = true) by (apply N.leb_le; lia).
+  assert (H2 : (c - 32 <=? 90) = true) by (apply N.leb_le; lia).
+  assert (H3 : (c <=? 90) = false) by (apply N.leb_gt; lia).
+  rewrite H1, H2, H3, andb_false_r. cbn. lia.
+Qed.
+
+(* the label written in the declaration is the requested one up to case *)
+Lemma label_eqb_upper enc : label_eqb (upper enc) enc = true.
+Proof.
+  unfold label_eqb, upper, lower. rewrite map_map.
+  rewrite (map_ext _ ascii_lower lower_upper_char). apply str_eqb_refl.
+Qed.
